@@ -98,11 +98,48 @@ CRTF_BLOBS = [
 ]
 
 
-def make_pool():
+ANGLE_UNITS = {'deg': 1.0, 'rad': 0.017453292519943295, 'arcmin': 60.0,
+               'hourangle': 1 / 15.0}
+
+
+def vary(spec, variant):
+    """A member of the pool family: the documented pool region moved by
+    ``shift`` (eighths of a pixel), resized by ``scale`` and turned by
+    ``rot`` degrees, its angle expressed in ``unit``.  (All regions stay
+    inside the 20x24 image neighbourhood the pool images cover.)"""
+    if not variant:
+        return spec
+    dx, dy = (v / 8.0 for v in variant.get('shift', (0, 0)))
+    f = variant.get('scale', 1.0)
+    sp = dict(spec)
+    for k in ('center', 'start', 'end'):
+        if k in sp and isinstance(sp[k], list):
+            sp[k] = [sp[k][0] + dx, sp[k][1] + dy]
+    if 'vertices' in sp and isinstance(sp['vertices'], list):
+        xs, ys = sp['vertices']
+        cx, cy = sum(xs) / len(xs), sum(ys) / len(ys)
+        sp['vertices'] = [[cx + (x - cx) * f + dx for x in xs],
+                          [cy + (y - cy) * f + dy for y in ys]]
+    for k in ('radius', 'width', 'height', 'inner_radius', 'outer_radius',
+              'inner_width', 'outer_width', 'inner_height', 'outer_height'):
+        if k in sp:
+            if isinstance(sp[k], list):       # sky: [value, unit]
+                sp[k] = [sp[k][0] * f, sp[k][1]]
+            else:
+                sp[k] = sp[k] * f
+    if 'angle' in sp:
+        v, un, kind = sp['angle']
+        deg = v / ANGLE_UNITS[un] + variant.get('rot', 0.0)
+        un2 = variant.get('unit', un)
+        sp['angle'] = [deg * ANGLE_UNITS[un2], un2, kind]
+    return sp
+
+
+def make_pool(variant=None):
     """Fresh live objects; index -> (kind, object, recipe)."""
     from regions import PixCoord, Regions
-    pool = {'pix': [S.build(s) for s in PIXEL_SPECS],
-            'sky': [S.build(s) for s in SKY_SPECS],
+    pool = {'pix': [S.build(vary(s, variant)) for s in PIXEL_SPECS],
+            'sky': [S.build(vary(s, variant)) for s in SKY_SPECS],
             'wcs': [S.build_wcs(w) for w in WCS_SPECS],
             'coord': [PixCoord(10.0, 10.0),
                       PixCoord(np.array([2.0, 9.5, 12.0, 30.0]),
@@ -117,7 +154,9 @@ def make_pool():
                                     'source': 1},
                            visual={'linewidth': 2, 'linestyle': 'dashed',
                                    'facecolor': 'red', 'edgecolor': 'red'}))
-              for s in (PIXEL_SPECS[0], PIXEL_SPECS[1], PIXEL_SPECS[2])]
+              for s in (vary(PIXEL_SPECS[0], variant),
+                        vary(PIXEL_SPECS[1], variant),
+                        vary(PIXEL_SPECS[2], variant))]
     pool['pix_shared'] = shared
     pool['list'] = [Regions([pool['pix'][0], pool['pix'][1], pool['pix'][3]]),
                     Regions([pool['pix'][2], pool['pix'][5], pool['pix'][7],
@@ -358,6 +397,6 @@ def module_tables():
 
 def region_op(args):
     """Child-interpreter entry: a fresh pool, ONE operation, its result."""
-    pool = make_pool()
+    pool = make_pool(args.get('variant'))
     _, result = apply(pool, args['op'])
     return fp(result)
